@@ -36,51 +36,62 @@ type c15Fail struct {
 	parse     bool
 	multiline bool // failing tag spans lines: N within its extent
 	exact     int  // >0: N must be exactly (first line of src) + exact - 1 (the line on which the failing tag begins)
+	inner     bool // the message also carries line numbers of another template (a partial): only the leading N shifts
 }
 
 var c15Fails = []c15Fail{
-	{"unknown-ident", `<%= nope %>`, false, false, 0},
-	{"failing-helper", `<%= fail() %>`, false, false, 0},
-	{"type-error", `<%= 1 + "a" %>`, false, false, 0},
-	{"index-out-of-range", `<%= one[5] %>`, false, false, 0},
-	{"div-by-zero", `<%= 1 / 0 %>`, false, false, 0},
-	{"assign-unknown", `<% zz = 1 %>`, false, false, 0},
-	{"silent-unknown", `<% nope %>`, false, false, 0},
-	{"let-unknown", `<% let q = nope %>`, false, false, 0},
-	{"unknown-func", `<%= nofn(1) %>`, false, false, 0},
-	{"not-iterable", `<%= for (v) in 5 { %>x<% } %>`, false, false, 0},
-	{"syntax-let", `<% let = 1 %>`, true, false, 0},
-	{"syntax-call", `<%= foo(1 %>`, true, false, 0},
-	{"syntax-if", `<%= if (true { %>x<% } %>`, true, false, 0},
-	{"syntax-prefix", `<%= * 2 %>`, true, false, 0},
-	{"syntax-bracket", `<%= [1, 2 %>`, true, false, 0},
-	{"syntax-hash", `<%= {"a" 1} %>`, true, false, 0},
-	{"big-int", `<%= 99999999999999999999 %>`, true, false, 0},
-	{"bad-float", `<%= 1.5e %>`, true, false, 0},
-	{"illegal-number", `<%= 1.2.3 %>`, true, false, 0},
-	{"break-outside-loop", `<% break %>`, true, false, 0},
-	{"for-missing-paren", `<%= for (v in one { %>x<% } %>`, true, false, 0},
-	{"syntax-call-open", `<%= foo( %>`, true, false, 0},
-	{"syntax-call-comma", `<%= foo(1, %>`, true, false, 0},
-	{"syntax-index-open", `<%= one[ %>`, true, false, 0},
-	{"ident-then-newline", "<%= nope\n %>", false, true, 1},
-	{"silent-ident-then-newline", "<% nope\n %>", false, true, 1},
-	{"let-then-newline", "<% let q = nope\n %>", false, true, 1},
-	{"opener-then-newline", "<%=\nnope %>", false, true, 1},
-	{"after-fn-call-in-same-statement", "<% let fq = fn() {\n return 1\n } %>\n<%= fq() + nope %>", false, true, 4},
-	{"after-fn-call-in-array", "<% let fq = fn(a) {\n return a } %>\nb\n<%= fq(1) %><%= [fq(2), nope] %>", false, true, 4},
-	{"after-fn-call-in-helper-arg", "<% let fq = fn() {\n\n return 1 } %><%= fail2(fq()) %>", false, true, 3},
-	{"multiline-unknown", "<%=\n nope\n %>", false, true, 0},
-	{"multiline-type-error", "<%= 1 +\n \"a\"\n %>", false, true, 0},
-	{"unterminated-string", "<%= foo(\"abc\ndef) %>\nmore", true, true, 0},
+	{"unknown-ident", `<%= nope %>`, false, false, 0, false},
+	{"failing-helper", `<%= fail() %>`, false, false, 0, false},
+	{"type-error", `<%= 1 + "a" %>`, false, false, 0, false},
+	{"index-out-of-range", `<%= one[5] %>`, false, false, 0, false},
+	{"div-by-zero", `<%= 1 / 0 %>`, false, false, 0, false},
+	{"assign-unknown", `<% zz = 1 %>`, false, false, 0, false},
+	{"silent-unknown", `<% nope %>`, false, false, 0, false},
+	{"let-unknown", `<% let q = nope %>`, false, false, 0, false},
+	{"unknown-func", `<%= nofn(1) %>`, false, false, 0, false},
+	{"not-iterable", `<%= for (v) in 5 { %>x<% } %>`, false, false, 0, false},
+	{"syntax-let", `<% let = 1 %>`, true, false, 0, false},
+	{"syntax-call", `<%= foo(1 %>`, true, false, 0, false},
+	{"syntax-if", `<%= if (true { %>x<% } %>`, true, false, 0, false},
+	{"syntax-prefix", `<%= * 2 %>`, true, false, 0, false},
+	{"syntax-bracket", `<%= [1, 2 %>`, true, false, 0, false},
+	{"syntax-hash", `<%= {"a" 1} %>`, true, false, 0, false},
+	{"big-int", `<%= 99999999999999999999 %>`, true, false, 0, false},
+	{"bad-float", `<%= 1.5e %>`, true, false, 0, false},
+	{"illegal-number", `<%= 1.2.3 %>`, true, false, 0, false},
+	{"break-outside-loop", `<% break %>`, true, false, 0, false},
+	{"for-missing-paren", `<%= for (v in one { %>x<% } %>`, true, false, 0, false},
+	{"syntax-call-open", `<%= foo( %>`, true, false, 0, false},
+	{"syntax-call-comma", `<%= foo(1, %>`, true, false, 0, false},
+	{"syntax-index-open", `<%= one[ %>`, true, false, 0, false},
+	{"ident-then-newline", "<%= nope\n %>", false, true, 1, false},
+	{"silent-ident-then-newline", "<% nope\n %>", false, true, 1, false},
+	{"let-then-newline", "<% let q = nope\n %>", false, true, 1, false},
+	{"opener-then-newline", "<%=\nnope %>", false, true, 1, false},
+	{"after-fn-call-in-same-statement", "<% let fq = fn() {\n return 1\n } %>\n<%= fq() + nope %>", false, true, 4, false},
+	{"after-fn-call-in-array", "<% let fq = fn(a) {\n return a } %>\nb\n<%= fq(1) %><%= [fq(2), nope] %>", false, true, 4, false},
+	{"after-fn-call-in-helper-arg", "<% let fq = fn() {\n\n return 1 } %><%= fail2(fq()) %>", false, true, 3, false},
+	{"multiline-unknown", "<%=\n nope\n %>", false, true, 0, false},
+	{"multiline-type-error", "<%= 1 +\n \"a\"\n %>", false, true, 0, false},
+	{"unterminated-string", "<%= foo(\"abc\ndef) %>\nmore", true, true, 0, false},
 	// the failure is in the header of a statement whose block runs over several tags and lines
-	{"silent-if-condition-over-lines", "<% if (1 + \"a\" == 1) { %>\n x\n<% } %>", false, true, 1},
-	{"if-condition-over-lines", "<%= if (1 + \"a\" == 1) { %>\n x\n<% } else { %>\n y\n<% } %>", false, true, 1},
-	{"silent-for-not-iterable-over-lines", "<% for (v) in 5 { %>\n x\n<% } %>", false, true, 1},
-	{"silent-failing-block-helper-over-lines", "<% failb() { %>\n x\n<% } %>", false, true, 1},
-	{"failing-block-helper-over-lines", "<%= failb() { %>\n x\n\n<% } %>", false, true, 1},
-	{"silent-let-of-failing-block-helper", "<% let q = failb() { %>\n x\n<% } %>", false, true, 1},
-	{"silent-multiline-call", "<% fail2(\n 1\n) %>", false, true, 0},
+	{"silent-if-condition-over-lines", "<% if (1 + \"a\" == 1) { %>\n x\n<% } %>", false, true, 1, false},
+	{"if-condition-over-lines", "<%= if (1 + \"a\" == 1) { %>\n x\n<% } else { %>\n y\n<% } %>", false, true, 1, false},
+	{"silent-for-not-iterable-over-lines", "<% for (v) in 5 { %>\n x\n<% } %>", false, true, 1, false},
+	{"silent-failing-block-helper-over-lines", "<% failb() { %>\n x\n<% } %>", false, true, 1, false},
+	{"failing-block-helper-over-lines", "<%= failb() { %>\n x\n\n<% } %>", false, true, 1, false},
+	{"silent-let-of-failing-block-helper", "<% let q = failb() { %>\n x\n<% } %>", false, true, 1, false},
+	{"silent-multiline-call", "<% fail2(\n 1\n) %>", false, true, 0, false},
+	// the line is taken from a token that is a string running over several lines
+	// the failing statement is a partial call; the partial fails on a line of its own (at its top level / inside a helper's block)
+	{"partial-failing-at-its-top-level", `<%= partial("ptop") %>`, false, false, 1, true},
+	{"partial-failing-inside-a-helper-block", `<%= partial("pblk") %>`, false, false, 1, true},
+	{"partial-with-layout-failing-inside-a-helper-block", `<%= partial("pblk", {"layout": "play"}) %>`, false, false, 1, true},
+	{"silent-let-of-partial-failing-inside-a-helper-block", "<% let q =\n partial(\"pblk\") %>", false, true, 0, true},
+	{"syntax-error-after-multiline-string", "<%= foo(1, \"a\nb\" %>", true, true, 1, false},
+	{"syntax-error-after-multiline-bstring", "<%= {`k\n1` 2} %>", true, true, 1, false},
+	{"statement-begins-with-multiline-string", "<% \"x\ny\" - 1 %>", false, true, 1, false},
+	{"statement-begins-with-multiline-bstring", "<%= `x\n\ny` - 1 %>", false, true, 1, false},
 }
 
 var c15Wraps = []struct{ name, pre, post string }{
@@ -102,6 +113,17 @@ func c15Context() *plush.Context {
 	c.Set("fail", func() (string, error) { return "", ErrSentinel })
 	c.Set("fail2", func(i int) (string, error) { return "", ErrSentinel })
 	c.Set("failb", func(help plush.HelperContext) (string, error) { return "", ErrSentinel })
+	c.Set("partialFeeder", func(name string) (string, error) {
+		switch name {
+		case "ptop":
+			return "p\n\n<%= nope %>", nil
+		case "pblk":
+			return "p\n\n\n<%= blk() { %>\n<%= nope %><% } %>", nil
+		case "play":
+			return "<l>\n<%= yield %></l>", nil
+		}
+		return "", fmt.Errorf("no partial %q", name)
+	})
 	c.Set("blk", func(help plush.HelperContext) (template.HTML, error) {
 		s, err := help.Block()
 		return template.HTML(s), err
@@ -127,7 +149,7 @@ func init() {
 			return s
 		},
 		Run:  c15Run,
-		Rule: "templates = every sequence of <=3 (4 thorough) preceding items from 14 (text lines, CRLF, single/multi-line tags, # comment lines, multi-line double- and back-quoted strings, multi-line comment tag, output tag, if/for blocks spanning lines, escaped tag) followed by one failing statement of 41 kinds (10 runtime faults, 14 syntax-error families incl. un-parsable numbers, break outside a loop and argument lists cut by the closing tag, tokens directly followed by a newline, failures after a multi-line user function was called in the same statement, 2 multi-line failing tags, failures in the header of a statement whose block spans several tags and lines (if condition, non-iterable for, failing block helper - silent and emitting), unterminated string at EOF) at top level or inside if / else / for / fn (called later) / helper block / for+if bodies, followed by trailing text; then shifted by k in {1,2,3} leading newlines. Oracle: (i) error starts with 'line N:'; (ii) N is the 1-based line on which the failing tag begins (within the tag's lines when it spans several / within the string's lines for an unterminated string); (iii) the shifted template's error equals the original with every 'line n:' replaced by 'line n+k:'. Non-trivial: at least one newline precedes the failing tag.",
+		Rule: "templates = every sequence of <=3 (4 thorough) preceding items from 14 (text lines, CRLF, single/multi-line tags, # comment lines, multi-line double- and back-quoted strings, multi-line comment tag, output tag, if/for blocks spanning lines, escaped tag) followed by one failing statement of 49 kinds (incl. partial calls whose partial fails on a line of its own, at its top level or inside a helper's block: the caller's error leads with the line of the call and only that number shifts; (failures reported at a multi-line string token) (10 runtime faults, 14 syntax-error families incl. un-parsable numbers, break outside a loop and argument lists cut by the closing tag, tokens directly followed by a newline, failures after a multi-line user function was called in the same statement, 2 multi-line failing tags, failures in the header of a statement whose block spans several tags and lines (if condition, non-iterable for, failing block helper - silent and emitting), unterminated string at EOF) at top level or inside if / else / for / fn (called later) / helper block / for+if bodies, followed by trailing text; then shifted by k in {1,2,3} leading newlines. Oracle: (i) error starts with 'line N:'; (ii) N is the 1-based line on which the failing tag begins (within the tag's lines when it spans several / within the string's lines for an unterminated string); (iii) the shifted template's error equals the original with every 'line n:' replaced by 'line n+k:'. Non-trivial: at least one newline precedes the failing tag.",
 		Bound: func(th bool) string {
 			if th {
 				return "<=4 preceding items, 7 placements, shifts 1..3"
@@ -205,7 +227,12 @@ func c15One(t *engine.T, fl c15Fail, seq []int) {
 				if err2 == nil {
 					return "", engine.Failf("shift", "shifted by %d: no error", k)
 				}
-				if want := c15Shift(msg, k); err2.Error() != want {
+				want := c15Shift(msg, k)
+				if fl.inner {
+					// line numbers after the leading one belong to the partial's own text
+					want = fmt.Sprintf("line %d:", n+k) + msg[m[1]:]
+				}
+				if err2.Error() != want {
 					return "", engine.Failf("shift", "shifted by %d newlines: expected %q, got %q", k, want, err2.Error())
 				}
 			}
